@@ -55,7 +55,14 @@ func applyFiller(n *GNode, f int) {
 // canonical form of a rooted graph: pointers numbered by first visit in a fixed traversal;
 // two graphs have the same form iff they are isomorphic as rooted graphs with equal contents
 func graphCanon(root interface{}) string {
-	ids := map[uintptr]int{}
+	// identity of a pointed-to object: address and type (a struct and its first field share an
+	// address; a pointer into the interior of another object is outside what the protocol can
+	// express and is compared by contents only)
+	type pkey struct {
+		p uintptr
+		t reflect.Type
+	}
+	ids := map[pkey]int{}
 	var b strings.Builder
 	var walk func(v reflect.Value)
 	walk = func(v reflect.Value) {
@@ -71,12 +78,12 @@ func graphCanon(root interface{}) string {
 				b.WriteString("nil")
 				return
 			}
-			if id, ok := ids[v.Pointer()]; ok {
+			if id, ok := ids[pkey{v.Pointer(), v.Type()}]; ok {
 				fmt.Fprintf(&b, "#%d", id)
 				return
 			}
 			id := len(ids)
-			ids[v.Pointer()] = id
+			ids[pkey{v.Pointer(), v.Type()}] = id
 			fmt.Fprintf(&b, "(#%d=", id)
 			walk(v.Elem())
 			b.WriteString(")")
@@ -172,6 +179,115 @@ func genGraph(seed uint64, n int, withContainers bool) interface{} {
 	return buildGraph(n, slots, r.intn(8), ex)
 }
 
+// containers that share an address without being the same value: a list of structs and a pointer
+// to its first element, a struct and a pointer to its first field, lists of different length
+// over one array - each followed by a shared pointer whose ordinal must still be right
+type VItem struct {
+	V    int32
+	Peer *VItem
+}
+type VHead struct {
+	In   VItem // first field: &h.In == &h
+	Tail int32
+}
+type VPool struct {
+	Items []VItem
+	First *VItem
+	Sub1  []VItem
+	Sub2  []VItem
+	Head  *VHead
+	HeadF *VItem
+	A     *VItem
+	B     *VItem
+	Ints1 []int32
+	Ints2 []int32
+	Ints3 []int32
+}
+
+// code selects, per slot, one of a few aliasing choices
+func buildPool(code int) *VPool {
+	pick := func(n int) int { r := code % n; code /= n; return r }
+	p := &VPool{}
+	n := pick(4)
+	for i := 0; i < n; i++ {
+		p.Items = append(p.Items, VItem{V: int32(i + 1)})
+	}
+	shared := &VItem{V: 99}
+	ptrTo := func(k int) *VItem {
+		switch {
+		case k == 0:
+			return nil
+		case k == 1:
+			return shared
+		case k-2 < len(p.Items):
+			return &p.Items[k-2]
+		}
+		return &VItem{V: int32(100 + k)}
+	}
+	p.First = ptrTo(pick(5))
+	switch pick(3) {
+	case 1:
+		p.Sub1 = p.Items
+	case 2:
+		if len(p.Items) > 1 {
+			p.Sub1 = p.Items[:len(p.Items)-1]
+		}
+	}
+	switch pick(3) {
+	case 1:
+		if len(p.Items) > 1 {
+			p.Sub2 = p.Items[1:]
+		}
+	case 2:
+		if len(p.Items) > 0 {
+			p.Sub2 = p.Items[:1]
+		}
+	}
+	if pick(2) == 1 {
+		p.Head = &VHead{In: VItem{V: 5}, Tail: 6}
+		if pick(2) == 1 {
+			p.HeadF = &p.Head.In
+		}
+	}
+	p.A = ptrTo(pick(4))
+	p.B = ptrTo(pick(4))
+	if len(p.Items) > 0 && pick(2) == 1 {
+		p.Items[0].Peer = p.A
+	}
+	arr := []int32{1, 2, 3, 4}
+	p.Ints1 = arr[:pick(4)]
+	p.Ints2 = arr[:pick(4)]
+	p.Ints3 = arr[pick(2):]
+	return p
+}
+
+const poolCodes = 4 * 5 * 3 * 3 * 2 * 2 * 4 * 4 * 2 * 4 * 4 * 2
+
+func c04PoolCheck(c *ctx, code int) {
+	in := map[string]interface{}{"op": "pool", "code": code}
+	p := buildPool(code)
+	want := graphCanon(p)
+	bs, dec, eo, do, msg := publicRoundTrip(p)
+	if eo != oOK {
+		c.fail("encoding a graph with containers sharing an address fails", in, eo.String()+": "+msg, "")
+		return
+	}
+	if do != oOK {
+		c.fail("decoding the encoder's rendering of a graph with containers sharing an address fails (a reference resolves to the wrong container)", in, do.String()+": "+msg, "")
+		return
+	}
+	if len(bs) < 6000 {
+		tm, nm := hessian.ExtractTypeNameMap(p)
+		if h, err := hparseAll(bs); err == nil {
+			encCorr(c, p, nm, bs, h)
+		}
+		decCorr(c, tm, bs)
+	}
+	if got := graphCanon(dec); got != want {
+		c.fail("decoded graph differs from the original (contents or sharing)", in, diffStr(want, got), "")
+	}
+}
+
 // classifier of known findings
 func c04Class(want, got string) string { return "" }
 
@@ -203,6 +319,10 @@ func c04Check(c *ctx, root *GNode, in map[string]interface{}) {
 func runC04(c *ctx) {
 	if rp, ok := c.extra["replay"].(string); ok {
 		in := loadReplay(rp)
+		if in["op"] == "pool" {
+			c04PoolCheck(c, int(in["code"].(float64)))
+			return
+		}
 		if in["op"] == "graph-exhaustive" {
 			n := int(in["n"].(float64))
 			var slots []int
@@ -217,7 +337,7 @@ func runC04(c *ctx) {
 		}
 		return
 	}
-	c.rule = "pointer graphs over a node type with two pointer fields, a slice-of-pointer and a map-of-pointer field, each preceded by filler fields (nil/empty map, zero/compact/millisecond timestamp, string, bytes, nil slice): EXHAUSTIVELY every assignment of the 2n pointer slots to {nil,n0..} for n<=3 nodes (n<=4 in the thorough tier) x 8 filler configurations, plus random graphs up to 200 nodes with shared slice elements and map values; oracle: canonical rooted-graph form (pointer identity classes + contents) of decode(encode(g)) equals that of g. Distinct by (n, slots, filler) or seed; non-trivial = at least one non-nil pointer."
+	c.rule = "pointer graphs over a node type with two pointer fields, a slice-of-pointer and a map-of-pointer field, plus pools in which a list of structs, pointers to its elements, sub-lists of it, a struct and a pointer to its first field share addresses; each preceded by filler fields (nil/empty map, zero/compact/millisecond timestamp, string, bytes, nil slice): EXHAUSTIVELY every assignment of the 2n pointer slots to {nil,n0..} for n<=3 nodes (n<=4 in the thorough tier) x 8 filler configurations, plus random graphs up to 200 nodes with shared slice elements and map values; oracle: canonical rooted-graph form (pointer identity classes + contents) of decode(encode(g)) equals that of g. Distinct by (n, slots, filler) or seed; non-trivial = at least one non-nil pointer."
 	maxN := 3
 	if c.tier == "thorough" {
 		maxN = 4
@@ -256,6 +376,17 @@ func runC04(c *ctx) {
 				}
 			}
 		}
+	}
+	// containers sharing an address: a stride through the product of aliasing choices
+	pn := 3000
+	if c.tier == "thorough" {
+		pn = 60000
+	}
+	for i := 0; i < pn; i++ {
+		code := int((uint64(i)*2654435761 + c.seed*7919) % poolCodes)
+		c.eval(fmt.Sprint("pool", code))
+		c.dist["address_sharing_pools"]++
+		c04PoolCheck(c, code)
 	}
 	c.dist["exhaustive_graphs"] = exhaustive
 	c.extra["exhaustive_upto_nodes"] = 3
